@@ -61,6 +61,28 @@ pub struct AttrMap {
     pub field_to_attr: BTreeMap<String, usize>,
 }
 
+/// DM-attr-names: the helper attribute parsed for comparison trait T is the one named after T (`ord` for Ord, ...)
+pub fn attr_names_rule(ix: &Index, rep: &mut Report) {
+    use crate::eval::{Event, St, Ty, Val};
+    let sig = |f: &crate::index::FnDef| crate::misc::sig_text(f);
+    let Some(parser) = ix.fns.values().flatten().find(|f| f.self_ty.as_deref() == Some("HelperAttributeForCompareOp") && sig(f).contains("CompareOp") && sig(f).contains("Result<Self>")).cloned() else {
+        rep.fail("unanalysable", "HelperAttributeForCompareOp", "parser", "parser of one comparison helper attribute (attrs, op) -> Result<Self> not found", "item_type/compare_op.rs", json!({})); return;
+    };
+    let Some(single) = ix.fns.values().flatten().find(|f| f.self_ty.is_none() && sig(f).contains("&[Attribute]") && sig(f).contains("&str") && sig(f).contains("Result<Option<T>>")).cloned() else {
+        rep.fail("unanalysable", "parse_single", "not-found", "the by-name attribute lookup (attrs, name) -> Result<Option<T>> not found", "item_type.rs", json!({})); return;
+    };
+    for (ti, tn) in TRAITS.iter().enumerate() {
+        let mut ev = mk_ev(ix);
+        ev.stops.push((single.qual.clone(), "ret"));
+        ev.push_fns.push(single.qual.clone());
+        let outs = ev.call_fn(St::new(), &parser, None, vec![Val::Sym { ty: Ty::Slice(Box::new(Ty::Named("Attribute".into(), vec![]))), path: "attrs".into() }, Val::Enum { ty: "CompareOp".into(), var: tn.to_string(), args: vec![] }]);
+        let mut names: std::collections::BTreeSet<String> = Default::default();
+        for (st, _) in &outs { for e in &st.events { if let Event::Push { func, args, .. } = e { if *func == single.qual { if let Some(n) = args.get(1) { names.insert(n.clone()); } } } } }
+        let want = format!("{:?}", ATTRS[ti]);
+        rep.check(names.len() == 1 && names.iter().next() == Some(&want), "DM-attr-names", &parser.qual, tn, &format!("the helper attribute read for {tn} is looked up under {names:?}, expected `{}`", ATTRS[ti]), &format!("{}:{} {}", parser.file, parser.line, parser.qual), json!({}));
+    }
+}
+
 pub fn attr_map(ix: &Index, rep: &mut Report) -> AttrMap {
     let ev = mk_ev(ix);
     let mut m = BTreeMap::new();
@@ -75,6 +97,8 @@ pub fn attr_map(ix: &Index, rep: &mut Report) -> AttrMap {
             }
         }
     }
+    // which attribute NAME is read into the slot of trait ti: the parser must look for `#[<ATTRS[ti]>(..)]`
+    attr_names_rule(ix, rep);
     // the attribute belonging to trait index ti is ATTRS[same position in TRAITS order]: ord<->Ord ...
     let ok = m.len() == 5;
     rep.check(ok, "DM-attr-wiring", "HelperAttributesForCompareOp::get", "map", "the accessor from a comparison trait to its helper-attribute slot could not be extracted for all five traits", "item_type/compare_op.rs get", json!({"extracted": format!("{m:?}")}));
